@@ -153,6 +153,20 @@ D_RETIRE_AFTER_SHUTDOWN = "HostConnection._replace:old-connection-kept-open-afte
 LEAK_SIGNATURES = (A_SHUTDOWN_TRASH, B_PUBLISH_AFTER_SHUTDOWN, C_DEAD_OLD_CLEARS_CURRENT, D_RETIRE_AFTER_SHUTDOWN)
 
 
+def establish_keyspace(session, nodes, keyspace):
+    """session.set_keyspace() driven step by step: every USE is answered from the top level, as a reactor would
+    (answering inside push() would re-enter process_io_buffer and process a frame twice)."""
+    fut = session.execute_async("USE %s" % keyspace)
+    for _ in range(100):
+        pend = [(n, p) for n in nodes for p in n.pending if p.req.get("query", "").upper().startswith("USE")]
+        if not pend:
+            break
+        n, p = pend[0]
+        n.respond(p, wire.RESULT, wire.body_set_keyspace(keyspace))
+    if fut._final_exception is not None or fut._final_result is cassandra.cluster._NOT_SET or session.keyspace != keyspace:
+        raise RuntimeError("could not establish the session keyspace %r" % keyspace)
+
+
 class PoolHarness:
     CVARS = ("inflight", "orph", "reg", "owed", "thr", "closed", "defunct", "signaled")
     VARS = CVARS + ("cur", "trash", "replacing", "shutdown", "queued", "opened", "st", "on")
@@ -200,11 +214,7 @@ class PoolHarness:
         self.cluster.connection_factory = factory
         self.session = self.cluster.connect()
         if self.ks:
-            self.node.auto = True
-            try:
-                self.session.set_keyspace("ks")
-            finally:
-                self.node.auto = False
+            establish_keyspace(self.session, [self.node], "ks")
         self.cluster.executor.inline = False
         cpool.time = TickClock(self.world.clock)
         self.host = list(self.cluster.metadata.all_hosts())[0]
